@@ -1212,7 +1212,10 @@ impl<'de, 'e> de::Deserializer<'de> for YamlDeserializer<'de, 'e> {
                 }
 
                 // Consume the scalar and attempt typed parses in order: bool -> int -> float.
-                let (s, tag, location) = self.take_scalar_event()?;
+                // Keep the parser's `Cow`: a plain scalar that stays a string is lent to the
+                // visitor when the parser lent it (as quoted scalars are above).
+                let (cow, tag, location) = self.take_scalar_cow_event()?;
+                let s: &str = &cow;
 
                 // Try booleans.
                 if self.cfg.strict_booleans {
@@ -1223,7 +1226,7 @@ impl<'de, 'e> de::Deserializer<'de> for YamlDeserializer<'de, 'e> {
                         return visitor.visit_bool(false);
                     }
                     // otherwise not a bool in strict mode; continue to numbers/float/string
-                } else if let Ok(b) = parse_yaml11_bool(&s) {
+                } else if let Ok(b) = parse_yaml11_bool(s) {
                     return visitor.visit_bool(b);
                 }
 
@@ -1251,7 +1254,7 @@ impl<'de, 'e> de::Deserializer<'de> for YamlDeserializer<'de, 'e> {
 
                 // Try float per YAML 1.2 forms.
                 if let Ok(v) =
-                    parse_yaml12_float::<f64>(&s, location, tag, self.cfg.angle_conversions)
+                    parse_yaml12_float::<f64>(s, location, tag, self.cfg.angle_conversions)
                 {
                     // serde_json::Value (and possibly other typeless consumers) cannot represent
                     // non-finite floats. In `deserialize_any`, prefer returning a canonical string
@@ -1272,7 +1275,10 @@ impl<'de, 'e> de::Deserializer<'de> for YamlDeserializer<'de, 'e> {
                 }
 
                 // Fallback: treat as string as-is.
-                visitor.visit_string(s)
+                match cow {
+                    Cow::Borrowed(b) => visitor.visit_borrowed_str(b),
+                    Cow::Owned(s) => visitor.visit_string(s),
+                }
             }
             Some(Ev::SeqStart { .. }) => self.deserialize_seq(visitor),
             Some(Ev::MapStart { .. }) => self.deserialize_map(visitor),
